@@ -59,6 +59,7 @@ CHECKS = {
         "assumptions": ["the reference model in harness/model/tracker.go is written from the property statement and the Tracker interface doc comments, not from the implementation's data structures",
                         "left open and therefore not generated except in last position: privilege change for a non-member, -k followed by argument-taking letters; the membership map of a snapshot returned by DelNick/DelChannel may be pre- or post-deletion"],
         "legs": [
+            {"test": "TestC12_Large", "quick": {"checks": 25, "timeout": "10m"}, "thorough": {"checks": 300, "shards": 2, "timeout": "30m"}},
             {"test": "TestC12_Enum", "quick": {"env": {"VERIF_C12_NICKS": "me,a", "VERIF_C12_CHANS": "#x", "VERIF_C12_DEPTH2": 1, "VERIF_C12_RICH": 0}, "timeout": "10m"},
              "thorough": {"env": {"VERIF_C12_NICKS": "me,a,b", "VERIF_C12_CHANS": "#x,#y", "VERIF_C12_DEPTH2": 0, "VERIF_C12_RICH": 0}, "timeout": "60m"}},
             {"test": "TestC12_Enum", "thorough": {"env": {"VERIF_C12_NICKS": "me,a", "VERIF_C12_CHANS": "#x", "VERIF_C12_DEPTH2": 1, "VERIF_C12_RICH": 1}, "timeout": "60m"}},
